@@ -450,6 +450,10 @@ CONSTRUCTED += [
     # equal size + equal mtime: a conflict only under deep (job level here; project level is C15's)
     {"jobs": [_job({"f.txt": _f("ab", "ba", 1, 1)})], "src_pdoc": None, "dst_pdoc": None, "options": _o(deep=True, entry="Job.sync")},
     {"jobs": [_job({"f.txt": _f("ab", "ba", 1, 1)})], "src_pdoc": None, "dst_pdoc": None, "options": _o(deep=True, strategy="always", entry="sync_jobs")},
+    # the same with permissions and times preserved (archive mode), at job and project level, top level and nested
+    {"jobs": [_job({"f.txt": _f("ab", "ba", 1, 1), "sub/h.txt": _f("xy", "yx", 2, 2)})], "src_pdoc": None, "dst_pdoc": None, "options": _o(deep=True, strategy="always", entry="Job.sync", preserve=True)},
+    {"jobs": [_job({"f.txt": _f("ab", "ba", 1, 1), "sub/h.txt": _f("xy", "yx", 2, 2)})], "src_pdoc": None, "dst_pdoc": None, "options": _o(deep=True, strategy={"table": {"f.txt": True, "sub/h.txt": True}}, entry="Project.sync", preserve=True)},
+    {"jobs": [_job({"f.txt": _f("ab", "ba", 1, 1)})], "src_pdoc": None, "dst_pdoc": None, "options": _o(deep=True, entry="sync_projects", preserve=True)},
     # nested conflict without recursive: unreachable, untouched
     {"jobs": [_job({"sub/h.txt": _f("a", "ab", 2, 1), "f.txt": _f("a", None)})], "src_pdoc": None, "dst_pdoc": None, "options": _o(recursive=False, strategy="always")},
     # mixed type: mapping into scalar; scalar over mapping
